@@ -1,1 +1,228 @@
-// harnesses for hexane/src/codec.rs
+// G-HEX-codec: hexane's varint codec (child module of hexane::codec). C35.
+// Included by /repo/rust/hexane/src/codec.rs under cfg(kani).
+use super::*;
+
+/// Leb128 unsigned: read(encode(n)) = (len, n) for ALL u64; the encoding is 1..=10 bytes, every
+/// byte but the last carries the continuation bit, `unsigned_size`/`ulebsize` = bytes written,
+/// `unsigned_len` = bytes written, the checked read agrees with the unchecked one.
+#[kani::proof]
+#[kani::unwind(12)]
+fn codec_unsigned_roundtrip_all_u64() {
+    let n: u64 = kani::any();
+    let buf = Leb128::encode_unsigned(n);
+    let len = buf.as_bytes().len();
+    assert!(len >= 1 && len <= 10);
+    assert_eq!(Leb128::unsigned_size(n), len as u64);
+    assert_eq!(ulebsize(n), len as u64);
+    let mut i = 0;
+    while i < len {
+        assert_eq!(buf.as_bytes()[i] & 0x80 != 0, i + 1 < len);
+        i += 1;
+    }
+    match Leb128::read_unsigned(buf.as_bytes()) {
+        Some((used, v)) => {
+            assert_eq!(used, len);
+            assert_eq!(v, n);
+        }
+        None => panic!("own encoding must decode"),
+    }
+    match Leb128::try_read_unsigned(buf.as_bytes()) {
+        Ok((used, v)) => {
+            assert_eq!(used, len);
+            assert_eq!(v, n);
+        }
+        Err(e) => {
+            std::mem::forget(e);
+            panic!("own encoding must decode (checked read)");
+        }
+    }
+    assert_eq!(Leb128::unsigned_len(buf.as_bytes()), Some(len));
+    match Leb128::read_count(buf.as_bytes()) {
+        Some((used, v)) => {
+            assert_eq!(used, len);
+            assert_eq!(v as u64, n);
+        }
+        None => panic!("own encoding must decode as a count"),
+    }
+    kani::cover!(len == 1);
+    kani::cover!(len == 10);
+    kani::cover!(n == u64::MAX);
+}
+
+/// Leb128 signed: the same identities for ALL i64.
+#[kani::proof]
+#[kani::unwind(12)]
+fn codec_signed_roundtrip_all_i64() {
+    let n: i64 = kani::any();
+    let buf = Leb128::encode_signed(n);
+    let len = buf.as_bytes().len();
+    assert!(len >= 1 && len <= 10);
+    assert_eq!(Leb128::signed_size(n), len as u64);
+    assert_eq!(lebsize(n), len as u64);
+    let mut i = 0;
+    while i < len {
+        assert_eq!(buf.as_bytes()[i] & 0x80 != 0, i + 1 < len);
+        i += 1;
+    }
+    match Leb128::read_signed(buf.as_bytes()) {
+        Some((used, v)) => {
+            assert_eq!(used, len);
+            assert_eq!(v, n);
+        }
+        None => panic!("own encoding must decode"),
+    }
+    match Leb128::try_read_signed(buf.as_bytes()) {
+        Ok((used, v)) => {
+            assert_eq!(used, len);
+            assert_eq!(v, n);
+        }
+        Err(e) => {
+            std::mem::forget(e);
+            panic!("own encoding must decode (checked read)");
+        }
+    }
+    assert_eq!(Leb128::signed_len(buf.as_bytes()), Some(len));
+    let r = Leb128::signed_bytes(buf.as_bytes(), 0);
+    assert!(r.start == 0 && r.end == len);
+    kani::cover!(len == 1 && n < 0);
+    kani::cover!(len == 10 && n < 0);
+    kani::cover!(len == 10 && n > 0);
+    kani::cover!(n == i64::MIN);
+}
+
+/// Independent reading of LEB128 over a fixed-length buffer: index of the first byte without the
+/// continuation bit.
+fn terminator<const N: usize>(b: &[u8; N]) -> Option<usize> {
+    let mut i = 0;
+    while i < N {
+        if b[i] & 0x80 == 0 {
+            return Some(i);
+        }
+        i += 1;
+    }
+    None
+}
+
+/// On EVERY byte string of length N: the reads never panic (no shift >= 64, no index out of
+/// range), consume 1..=min(N,10) bytes, the checked and unchecked reads agree, and the skip
+/// helpers `unsigned_len` / `signed_len` agree with the full reads:
+///   read = Some((n, _))  =>  len = Some(n);   len = None  =>  read = None;
+///   len = Some(n), n < 10  =>  read = Some((n, _))   (a 10-byte varint may still overflow u64).
+fn reads_total<const N: usize>() {
+    let b: [u8; N] = kani::any();
+    let t = terminator(&b);
+    let ru = Leb128::read_unsigned(&b);
+    let rs = Leb128::read_signed(&b);
+    let lu = Leb128::unsigned_len(&b);
+    let ls = Leb128::signed_len(&b);
+    assert_eq!(lu, ls);
+    // the skip helper is exactly "first terminator within 10 bytes"
+    match t {
+        Some(i) if i < 10 => assert_eq!(lu, Some(i + 1)),
+        _ => assert_eq!(lu, None),
+    }
+    match ru {
+        Some((n, v)) => {
+            assert!(n >= 1 && n <= N && n <= 10);
+            assert_eq!(lu, Some(n));
+            if n < 10 {
+                // value bound: n bytes carry 7n bits
+                assert!(n * 7 >= 64 || v < (1u64 << (n * 7)));
+            }
+            kani::cover!(n == N || N > 10);
+        }
+        None => {
+            // only truncation or a 10-byte overflow fail
+            assert!(lu.is_none() || lu == Some(10));
+            kani::cover!(true);
+        }
+    }
+    match rs {
+        Some((n, v)) => {
+            assert!(n >= 1 && n <= N && n <= 10);
+            assert_eq!(ls, Some(n));
+            if n == 1 {
+                assert!(v >= -64 && v <= 63);
+            }
+        }
+        None => assert!(ls.is_none() || ls == Some(10)),
+    }
+    if let Some(n) = lu {
+        if n < 10 {
+            assert!(ru.is_some() && rs.is_some());
+        }
+    }
+    // checked reads = unchecked reads
+    match Leb128::try_read_unsigned(&b) {
+        Ok(x) => assert!(ru == Some(x)),
+        Err(e) => {
+            assert!(ru.is_none());
+            std::mem::forget(e);
+        }
+    }
+    match Leb128::try_read_signed(&b) {
+        Ok(x) => assert!(rs == Some(x)),
+        Err(e) => {
+            assert!(rs.is_none());
+            std::mem::forget(e);
+        }
+    }
+    // canonical encodings are fixed points: if the bytes are what encode would write, it is the same bytes
+    if let Some((n, v)) = ru {
+        let back = Leb128::encode_unsigned(v);
+        if back.as_bytes().len() == n {
+            let mut i = 0;
+            while i < n {
+                assert_eq!(back.as_bytes()[i], b[i]);
+                i += 1;
+            }
+            kani::cover!(true);
+        } else {
+            // overlong (padded) input: the canonical form is shorter
+            assert!(back.as_bytes().len() < n);
+        }
+    }
+}
+
+macro_rules! reads_total_harness {
+    ($name:ident, $n:expr, $unwind:expr) => {
+        #[kani::proof]
+        #[kani::unwind($unwind)]
+        fn $name() {
+            reads_total::<$n>()
+        }
+    };
+}
+reads_total_harness!(codec_reads_total_len1, 1, 13);
+reads_total_harness!(codec_reads_total_len2, 2, 13);
+reads_total_harness!(codec_reads_total_len3, 3, 13);
+reads_total_harness!(codec_reads_total_len4, 4, 13);
+reads_total_harness!(codec_reads_total_len5, 5, 13);
+reads_total_harness!(codec_reads_total_len6, 6, 13);
+reads_total_harness!(codec_reads_total_len7, 7, 13);
+reads_total_harness!(codec_reads_total_len8, 8, 13);
+reads_total_harness!(codec_reads_total_len9, 9, 13);
+reads_total_harness!(codec_reads_total_len10, 10, 13);
+reads_total_harness!(codec_reads_total_len11, 11, 13);
+
+/// VarBuf: push / extend_from_slice / iteration keep the bytes and the length (the stack buffer
+/// every encoder writes through).
+#[kani::proof]
+#[kani::unwind(6)]
+fn codec_varbuf_bytes() {
+    let a: [u8; 3] = kani::any();
+    let c: u8 = kani::any();
+    let mut v = VarBuf::new();
+    assert_eq!(v.as_bytes().len(), 0);
+    v.extend_from_slice(&a);
+    v.push(c);
+    assert_eq!(v.len(), 4);
+    let mut it = v.into_iter();
+    assert_eq!(it.size_hint(), (4, Some(4)));
+    assert_eq!(it.next(), Some(a[0]));
+    assert_eq!(it.next(), Some(a[1]));
+    assert_eq!(it.next(), Some(a[2]));
+    assert_eq!(it.next(), Some(c));
+    assert_eq!(it.next(), None);
+    kani::cover!(c == 0xff);
+}
